@@ -23,6 +23,8 @@ RULE = ('cases = (API in {hash_file, hash_path, get_file_metadata, gemato-hash-s
         '131070..131074; 1048574..1048578; random <= 5 MiB) x size hint {0, true, '
         'smaller, larger} x read schedule {whole, seeded short chunks, pipe bursts} x '
         'hash-name set (the ten Manifest names, every hashlib name, unknown names). '
+        'entry = update_entry_for_path on prior {size right/wrong} x {checksums none/'
+        'right/wrong} x requested hash set incl. empty; inplace / fifo histories. '
         'Non-trivial = content length > 0 or an unsupported name; distinct = distinct '
         '(api, length, hint, schedule seed, names) tuples.')
 ANCHORS = ['hash:hash_file', 'hash:hash_path', 'hash:get_hash_by_name',
